@@ -29,7 +29,7 @@
 From Coq Require Import List NArith ZArith Bool.
 From ApiFu Require Import Base.Sexp Transport.EnvelopeModel Transport.EnvelopeSpec Transport.EnvelopeProofs.
 From ApiFu Require Import Transport.JsonText Transport.JsonTextProofs Transport.EnvelopeCompose.
-From ApiFu Require Import Transport.WireModel Transport.WireProofs.
+From ApiFu Require Import Transport.WireModel Transport.WireProofs Transport.InitModel Transport.InitProofs.
 From ApiFu Require Api.PersistedQueryModel.
 Import ListNotations.
 
@@ -305,6 +305,38 @@ Section C17Bytes.
   Qed.
 End C17Bytes.
 
+(** ** feature plumbing on a socket: connection_init (Transport/InitModel.v, graphqlWSHandler.HandleInit).
+    A connection starts with the context [c0] of the upgrade request and the nil feature set; every
+    connection_init message (also a repeated one) first lets Config.HandleGraphQLWSInit replace the
+    context (an error refuses the init and closes the connection), then computes the feature set from
+    the NEW context.  Hence the effective feature set of a socket operation is
+    Config.Features(the context returned by the latest accepted init's hook) — and the transport
+    theorems above, which describe a socket session by one context [c] ([handle_init a c]), apply with
+    [c] = that context: a principal installed by the init hook gets the same answers as the same
+    principal installed by HTTP middleware whenever Config.Features maps the two contexts to the same
+    set ([C17_transport_same_response] takes one [c] for both). *)
+Theorem C17_ws_effective_features :
+  forall (Schema Features Ctx : Type) (no_features : Features) (hook : option (Ctx -> option bytes -> option Ctx))
+         (a : api Schema Features Ctx) c0 inits st',
+    inits <> [] -> run_inits hook false a (c0, no_features) inits = Some st' ->
+    ctx_after hook c0 inits = Some (fst st') /\ snd st' = features_of no_features a (fst st').
+Proof. exact ws_effective_features. Qed.
+
+Theorem C17_ws_session_is_handle_init :
+  forall (Schema Features Ctx : Type) (no_features : Features) (hook : option (Ctx -> option bytes -> option Ctx))
+         (Doc : Type) (a : api Schema Features Ctx) c0 inits st',
+    inits <> [] -> run_inits hook false a (c0, no_features) inits = Some st' ->
+    snd st' = fst (handle_init (Doc := Doc) no_features a (fst st')).
+Proof. exact ws_session_is_handle_init. Qed.
+
+(** with the two steps of HandleInit swapped (seed C17-5) the feature set belongs to the context
+    before the hook ran *)
+Theorem C17_init_order_refuted_when_swapped :
+  exists (a : api unit bool bool) (hook : option (bool -> option bytes -> option bool)) c0 inits st',
+    inits <> [] /\ run_inits hook true a (c0, false) inits = Some st' /\
+    snd st' <> features_of false a (fst st').
+Proof. exact init_order_refuted_when_swapped. Qed.
+
 (** the framing functions are injective on response bytes: answers that are equal on the wire carry
     the same response(s); so "same wire answer modulo framing" determines the response *)
 Theorem C17_framing_injective :
@@ -393,6 +425,9 @@ Print Assumptions C17_json_text_roundtrip.
 Print Assumptions C17_envelope_roundtrip_bytes.
 Print Assumptions C17_transport_same_response_bytes.
 Print Assumptions C17_transport_same_wire_answer.
+Print Assumptions C17_ws_effective_features.
+Print Assumptions C17_ws_session_is_handle_init.
+Print Assumptions C17_init_order_refuted_when_swapped.
 Print Assumptions C17_framing_injective.
 Print Assumptions C17_wire_is_framing_of_response.
 Print Assumptions C17_malformed_http_wire.
